@@ -6,7 +6,7 @@ From Coq Require Import List String Bool Arith ZArith.
 From Helm Require Import Common.Strs Values.Tree Values.Coalesce Values.Reuse.
 Import ListNotations.
 
-Record obs_rev := mkObs { oconfig : vmap; orendered : vmap }.
+Record obs_rev := mkObs { oconfig : vmap; orendered : vmap; ostatus : rstat }.
 
 Record case := mkCase { cops : list op; coks : list bool; crevs : list obs_rev }.
 
@@ -23,6 +23,7 @@ Fixpoint revs_agree (m : list revision) (o : list obs_rev) : bool :=
   | r :: s, x :: t =>
       val_equiv_b (VMap (rconfig r)) (VMap (oconfig x))
       && val_equiv_b (VMap (rrendered r)) (VMap (orendered x))
+      && rstat_eqb (rstatus r) (ostatus x)
       && revs_agree s t
   | _, _ => false
   end.
